@@ -102,6 +102,11 @@ class C05(CheckBase):
                 acts.append(("create", k))
             for n in self.ladder:
                 acts.append(("create", "data-%d" % n))
+        if len(m.objs) + 2 <= self.max_objs:
+            # a generated pair whose halves are asked to live in DIFFERENT places (token / session): each must end up where its own template says
+            for combo in ("pub-token+prv-session", "pub-session+prv-token"):
+                for alg in ("ec", "rsa"):
+                    acts.append(("genpair", alg, combo))
         for lab, o in sorted(m.objs.items()):
             acts.append(("destroy", lab))
             if len(o.muts) < 2:
@@ -136,6 +141,23 @@ class C05(CheckBase):
                 ctx.count("create_ok")
             else:
                 ctx.count("create_refused:%s" % a[1])
+        elif k == "genpair":
+            _, alg, combo = a
+            tp, tv = combo == "pub-token+prv-session", combo == "pub-session+prv-token"
+            lp, lv = b"o%02d-gen-%s-pub" % (m.n, alg.encode()), b"o%02d-gen-%s-prv" % (m.n, alg.encode())
+            if alg == "ec":
+                mm, pub = C.CKM_EC_KEY_PAIR_GEN, [(C.CKA_EC_PARAMS, F.H(F.KEYS["ec256"]["params"]))]
+            else:
+                mm, pub = C.CKM_RSA_PKCS_KEY_PAIR_GEN, [(C.CKA_MODULUS_BITS, 1024), (C.CKA_PUBLIC_EXPONENT, b"\x01\x00\x01")]
+            r = p.GenerateKeyPair(m.s, mech(mm), pub + [(C.CKA_TOKEN, tp), (C.CKA_PRIVATE, False), (C.CKA_LABEL, lp), (C.CKA_VERIFY, True)],
+                                  [(C.CKA_TOKEN, tv), (C.CKA_PRIVATE, True), (C.CKA_LABEL, lv), (C.CKA_SIGN, True)])
+            if r["rv"] == 0:
+                m.objs[lp] = Obj("%s-generated_pub" % alg, lp, tp, False)
+                m.objs[lv] = Obj("%s-generated_priv" % alg, lv, tv, True)
+                m.n += 1
+                ctx.count("genpair_ok")
+            else:
+                ctx.count("genpair_refused:%s" % alg)
         elif k == "destroy":
             h = self.handle(ctx, m, a[1])
             if h and p.DestroyObject(m.s, h)["rv"] == 0:
